@@ -25,6 +25,7 @@ THEOREMS = [
     "SyneTune.C19.tape_oracle_contract",
     "SyneTune.C19.priority_is_position",
     "SyneTune.C19.priority_layers",
+    "SyneTune.C19.priority_dominates",
     "SyneTune.C19.searchsorted_counts_smaller",
     "SyneTune.C19.rank_cmp_forced",
     "SyneTune.C19.moasha_rule",
@@ -32,6 +33,7 @@ THEOREMS = [
     "SyneTune.C19.moasha_off_milestone",
     "SyneTune.C19.moasha_once_per_rung",
     "SyneTune.C19.moasha_stop_at_max",
+    "SyneTune.C19.moasha_result_uses_bracket",
     "SyneTune.C19.moasha_nds_layers",
 ]
 TRUSTED = [
@@ -68,7 +70,7 @@ def gen_points_spec(rng, tier):
     combos = []
     dims = [None] + list(range(d)) + [-1]
     for _ in range(rng.choice([2, 3, 4])):
-        mx = rng.choice([None, None, None, 0, 1, 2, 3, max(0, n // 2), n, n + 2])
+        mx = rng.choice([None, None, None, None, 0, 1, 1, 2, 3, max(1, n // 2), n, n + 2])
         combos.append([rng.choice(dims), mx, rng.random() < 0.6])
     return {"kind": "points", "seed": rng.randrange(10 ** 9), "n": n, "d": d, "style": rng.choice(ps.STYLES), "combos": combos}
 
@@ -118,6 +120,11 @@ def corpus():
         {"kind": "moasha", "seed": 11, "max_t": 10, "grace_period": 1, "rf": str(Fraction(1.1)), "rf_int": False, "brackets": 1,
          "mode": ["max", "min"], "k": 2, "priority": {"kind": "fixed", "dim": 0}, "n_workers": 6, "max_events": 150,
          "style": "general", "p_jump": 0, "p_late": 0, "p_short": 0},
+        # rf = 1.1 (a double): the 11th entry with 10 better ones has 10/11 > 1/1.1 exactly but not in
+        # floating point -> a 'free' comparison (the model follows the implementation)
+        {"kind": "moasha", "seed": 3, "max_t": 4, "grace_period": 1, "rf": str(Fraction(1.1)), "rf_int": False, "brackets": 1,
+         "mode": "min", "k": 2, "priority": {"kind": "nds", "dim": 0, "max_num_samples": None}, "n_workers": 1, "max_events": 120,
+         "style": "worsening", "p_jump": 0, "p_late": 0, "p_short": 0},
     ]
 
 
